@@ -649,9 +649,8 @@ def _expand(fi: FuncInfo, caller_names: set[str], st: ast.stmt, select: Callable
             return any(w(c) for c in ast.iter_child_nodes(n))
         return any(w(x) for x in stmts)
 
-    # (a branch that jumps - break / continue of the caller's loop - cannot be moved into a loop of the inlined body)
-    if follow_if is not None and (_jumps(follow_if.body) or _jumps(follow_if.orelse)) and any(isinstance(n, (ast.For, ast.While)) for n in ast.walk(hn)):
-        follow_if = None
+    # (a branch that jumps - break / continue of the caller's loop - cannot be moved into a LOOP of the inlined body. In the
+    # tree form no return site is inside a loop; the block forms drop the threading, see below)
     if follow_if is not None and len(targets) == 1 and isinstance(st, ast.Assign):
         cands = [(None, targets[0])] if isinstance(targets[0], ast.Name) else list(enumerate(targets[0].elts)) if isinstance(targets[0], ast.Tuple) else []
         for pos, t in cands:
